@@ -258,6 +258,26 @@ for _id in ("C01", "C02", "C03"):
         CLAIMED[_id]["text"] += (" Besides the random families an ENUMERATED family (264 scenarios every run) covers same-iteration retraction: the handler dispatched first "
                                  "(descriptor, cross-thread iv_event, iv_event_raw) clears/unregisters/frees/recycles/re-registers another source already collected in that "
                                  "iteration, both arrival orders, all four methods, plus failed-then-successful registration of the same struct.")
+if "C06" in CLAIMED and _has("C06list"):
+    CLAIMED["C06"]["text"] += (" Extensions: (Ivy/Props/C06list.lean, 21 theorems) the intrusive circular list the task queue and every other queue of the library is "
+                               "built from (iv_list.h, __iv_list_steal_elements) is modelled at pointer level (heap of next/prev records, statement-by-statement "
+                               "transcription) and proved to refine Lean lists with exact frames and separation: add/add_tail/del/del_init from anywhere, the four "
+                               "splices (and that a non-_init splice leaves the source head stale), steal, for_each and for_each_safe with deletion of the current element; "
+                               "differential run of the real inline functions on random op files with an independent ring oracle. The servicing clause is judged with the "
+                               "monitors of C04/C02/C03 on an enumerated 'starve' family (task rings keeping a deferred task pending while a timer, a descriptor and a "
+                               "cross-thread event become due; 4 methods).")
+for _id in ("C08", "C09", "C10", "C11", "C12", "C13", "C19"):
+    if _id in CLAIMED and os.path.exists(os.path.join(HERE, "vlib", "sched.py")):
+        CLAIMED[_id]["text"] += (" Besides PRNG-chosen interleavings the deterministic scheduler enumerates systematically (vlib/sched.py), for a few small multi-thread "
+                                 "base scenarios, every schedule within a preemption bound of the non-preemptive run (quick: bound 1; thorough: bound 2), each executed on "
+                                 "the real library and replayed through the model.")
+if "C01" in CLAIMED:
+    CLAIMED["C01"]["text"] += (" For the object kinds outside the loop machine (signal interests, child-wait interests, inotify watches/instances) this check also runs the "
+                               "scenario families of C10, C11 and C20 and reports the after-unregister / use-after-free part of their oracles.")
+for _id in ("C04", "C07", "C15"):
+    if _id in CLAIMED:
+        CLAIMED[_id]["text"] += (" An enumerated family (140 scenarios every run) drives the timer-descriptor state machine: k = 2..8 consecutive wake-ups with an unchanged "
+                                 "deadline (below/at/above the arming threshold), then a handler adds an earlier/later timer or (un/re)registers the pending one; 4 methods.")
 
 NOT_YET = "check not built yet in this round; planned per DESIGN.md §7 (Lean model + theorems + correspondence)"
 
